@@ -5,12 +5,12 @@ import vlib
 PROP = "C03"
 
 
-def cfg(vars_, depth):
+def cfg(vars_, depth, alphabet="full"):
     names = ", ".join('"%s"' % n for n in vars_ + ["x"])
     vs = ", ".join('"%s"' % n for n in vars_)
-    return ("SPECIFICATION Spec\nCONSTANTS Names = {%s}\n Vars = {%s}\n MaxDepth = 6\n SDepth = %d\n"
+    return ("SPECIFICATION Spec\nCONSTANTS Names = {%s}\n Vars = {%s}\n MaxDepth = 6\n SDepth = %d\n Alphabet = \"%s\"\n"
             "PROPERTY Immutable\nPROPERTY OutputsAppendOnly\nPROPERTY FailedStmtFrame\nINVARIANT EmitDone\nCHECK_DEADLOCK FALSE\n"
-            % (names, vs, depth))
+            % (names, vs, depth, alphabet))
 
 
 TRACE_CFG = 'CONSTANTS Names = {"a", "b", "c", "d", "e", "f", "g", "h", "x"}\n MaxDepth = 6\n'
@@ -20,12 +20,13 @@ def check(tier, seed, t0):
     thorough = tier == "thorough"
     vlib.build_harness()
     v = vlib.Verdict(PROP)
-    runs = [("d2", ["a", "b", "c"], 2)]
+    runs = [("d2", ["a", "b", "c"], 2, "full"), ("fn4", ["a", "b"], 4, "fn")]
     if thorough:
-        runs.append(("d3", ["a", "b"], 3))
+        runs.append(("d3", ["a", "b"], 3, "full"))
+        runs.append(("fn5", ["a", "b"], 5, "fn"))
     cases, states, trans, wall = [], 0, 0, 0.0
-    for tag, vs, depth in runs:
-        r = vlib.run_tlc("c03_mc_" + tag, "MC_C03", cfg(vs, depth), workers=8, timeout=3000, xmx="12g")
+    for tag, vs, depth, alpha in runs:
+        r = vlib.run_tlc("c03_mc_" + tag, "MC_C03", cfg(vs, depth, alpha), workers=8, timeout=3000, xmx="12g")
         if not r.ok:
             raise vlib.ToolError("MC_C03: a C03 property fails on the Session specification itself:\n" + r.violation)
         cs = r.lines.get("CASE", [])
